@@ -97,7 +97,7 @@ func Main(all []*Scenario) {
 		}
 	}
 	if *fReplay != "" {
-		os.Exit(replayFile(byName, *fReplay))
+		os.Exit(replayFile(byName, *fReplay, *fTier))
 	}
 	if os.Getenv("VRT_DEBUG") != "" {
 		Debug = true
@@ -255,7 +255,7 @@ func printExec(x *Exec) {
 	fmt.Printf("points=%d choices=%d vtime=%s\n", x.Points, len(x.Trace), time.Duration(x.clockNS))
 }
 
-func replayFile(byName map[string]*Scenario, path string) int {
+func replayFile(byName map[string]*Scenario, path string, tier string) int {
 	b, err := os.ReadFile(path)
 	if err != nil {
 		fmt.Fprintln(os.Stderr, err)
@@ -270,6 +270,19 @@ func replayFile(byName map[string]*Scenario, path string) int {
 	if sc == nil {
 		fmt.Fprintf(os.Stderr, "unknown scenario %q\n", f.Scenario)
 		return 2
+	}
+	if sc.Direct != nil {
+		// product enumeration: the witness is an input, found again by re-running the enumeration
+		r := &DirectReport{Exhaustive: true}
+		sc.Direct(r, tier)
+		for _, v := range r.Violations {
+			if v.Clause == f.Clause {
+				fmt.Printf("VIOLATION-CLAUSE %s: %s\nREPRODUCED %s\n", v.Clause, v.Detail, f.Clause)
+				return 1
+			}
+		}
+		fmt.Println("NOT-REPRODUCED")
+		return 0
 	}
 	x := runPrint(sc, f.Prefix, false)
 	for _, v := range x.Violations {
